@@ -30,13 +30,13 @@ def handle (j : Json) : Except String Json := do
   let aLo := fromRoutesRule rules q lo
   let aHi := fromRoutesRule rules q hi
   if aLo != aHi then throw "case depends on the sampling draw"
-  let render (a : Action) (obs : Nat → List (OpResult × List RuleId)) : Json :=
+  let render (useRef : Bool) (a : Action) (obs : Nat → List (OpResult × List RuleId)) : Json :=
     Json.mkObj [("action", jAction a),
       ("codes", Json.arr (codes.map fun c =>
-        Json.mkObj [("c", toJson c), ("ops", Json.arr ((obs c).map (renderOp headers body)).toArray)]).toArray)]
-  let m := render aLo (fun c => runOps allow c aLo ops)
+        Json.mkObj [("c", toJson c), ("ops", Json.arr ((obs c).map (renderOp useRef headers body)).toArray)]).toArray)]
+  let m := render false aLo (fun c => runOps allow c aLo ops)
   let C := Spec.contributing q lo (Spec.insertionSort rules)
-  let s := render (Spec.action q C) (fun c => Spec.observe q C allow c [] ops)
+  let s := render true (Spec.action q C) (fun c => Spec.observe q C allow c [] ops)
   let tags : List String :=
     [s!"contrib:{C.length}"] ++
     (if (Spec.primaryFallback Spec.carriesStatus C).any (·.2.isSome) then ["status-fallback"] else []) ++
